@@ -971,8 +971,11 @@ pub fn peer_sender(seed: u64, family: &str, exact: bool) -> Scenario {
     if zero_window_variant {
         let buf = r.range((3 * link_v) as u64, (8 * link_v) as u64) as usize;
         opts.rx_buf = Some(buf);
-        let k = buf / mss; // whole segments that fit: afterwards the advertised window is 0
-        pkts = vec![mss as u16; k];
+        // segment size of the sender: the smallest one, or a larger one that the path carries
+        // (the endpoint's own segment size - the unit it rounds its window to - grows with it)
+        let s = if r.chance(0.5) || maxp <= mss + 1 { mss } else { r.range(mss as u64 + 1, maxp as u64) as usize };
+        let k = buf / s; // whole segments that fit: afterwards the advertised window is 0
+        pkts = vec![s as u16; k];
         steps.clear();
         for i in 0..k {
             steps.push(PeerStep::SendPkt(i));
